@@ -241,6 +241,12 @@ pub fn replay(ctx: &mut Ctx, case: &serde_json::Value) {
         ctx.replay_one(&t, |t, log| check_text(t, log), case.clone());
         return;
     }
-    let c: Case = serde_json::from_value(json!({"source": case["source"], "entropy": case["entropy"], "trivia": case["trivia"], "mutations": case["mutations"], "allow_stray": case["allow_stray"]})).unwrap();
+    let c: Case = match serde_json::from_value(json!({"source": case["source"], "entropy": case["entropy"], "trivia": case["trivia"], "mutations": case["mutations"], "allow_stray": case["allow_stray"]})) {
+        Ok(c) => c,
+        Err(e) => {
+            ctx.health(false, format!("replay case does not deserialize: {}", e));
+            return;
+        }
+    };
     ctx.replay_one(&c, prop, case.clone());
 }
